@@ -245,9 +245,19 @@ class Problem(Conversions):
         all_solutions = kwargs.pop("all_solutions", False)
         qubo = self.to_qubo(*args, **kwargs)
         sol = qubo.solve_bruteforce(all_solutions)
+
+        # a variable that is in no term of the QUBO is not part of the
+        # bruteforce solution, but ``convert_solution`` needs all of them. Its
+        # value does not matter for the objective, so set it to 0.
+        def complete(x):
+            x = dict(x)
+            for i in range(self.num_binary_variables):
+                x.setdefault(i, 0)
+            return x
+
         if all_solutions:
-            return [self.convert_solution(x) for x in sol]
-        return self.convert_solution(sol)
+            return [self.convert_solution(complete(x)) for x in sol]
+        return self.convert_solution(complete(sol))
 
     def to_pubo(self, *args, **kwargs):
         """to_pubo.
